@@ -105,6 +105,7 @@ Lemma n_set_disc_task s : neutral (set_disc_task s). Proof. intros w. triv_same.
 Lemma n_set_ann_started s : neutral (set_ann_started s). Proof. intros w. triv_same. Qed.
 Lemma n_set_announcing s : neutral (set_announcing s). Proof. intros w. triv_same. Qed.
 Lemma n_set_queues s : neutral (set_queues s). Proof. intros w. triv_same. Qed.
+Lemma n_ghost g : neutral (ghost g). Proof. intros w. triv_same. Qed.
 (* moving the clock changes nothing the ownership invariants read *)
 Lemma GP_set_now X t w : GP X w -> GP X (set_now t w).
 Proof. intros [H1 H2 H3 H4 H5 H6 H7 H8 H9]. constructor; assumption. Qed.
@@ -137,7 +138,7 @@ Lemma n_send_sd es d : neutral (send_sd es d).
 Proof.
   intros w. unfold send_sd. destruct es as [|e es]; [apply same_refl|].
   destruct (assign_outgoing (sess w) d) as [[fl sid] s']. destruct (sd_datagram _ _ _);
-    (eapply same_trans; [apply n_set_sess|apply n_emit]).
+    (eapply same_trans; [apply n_ghost|]; eapply same_trans; [apply n_set_sess|apply n_emit]).
 Qed.
 
 (* ------------------------------------------------------------------ basic facts *)
@@ -678,7 +679,10 @@ Proof. intros H. pose proof (keys_aset N.eqb c v l) as K. unfold keys in K. rewr
 
 Lemma keeps_queue_send e d : keeps (queue_send e d).
 Proof.
-  intros X w Hg. unfold queue_send. destruct (t_collect (cfg w) =? 0); [eapply same_G; [apply n_send_sd|exact Hg]|].
+  intros X w0 Hg0. unfold queue_send.
+  assert (Hg : GP X (ghost (GQueue e d) w0)) by (eapply same_G; [apply n_ghost|exact Hg0]).
+  revert Hg. generalize (ghost (GQueue e d) w0). clear w0 Hg0. intros w Hg. unfold queue_core.
+  destruct (t_collect (cfg w) =? 0); [eapply same_G; [apply n_send_sd|]; eapply same_G; [apply n_ghost|exact Hg]|].
   set (open := match aget dest_eqb d (queues w) with
                | Some c => match aget N.eqb c (collectors w) with Some co => if co_done co then None else Some (c, co) | None => None end
                | None => None end).
@@ -719,6 +723,9 @@ Lemma keeps_collector_timeout c : keeps (collector_timeout c).
 Proof.
   intros X w Hg. unfold collector_timeout. destruct (aget N.eqb c (collectors w)) as [co|] eqn:E; [|exact Hg].
   eapply same_G; [apply n_send_sd|].
+  assert (Hg' : GP X (ghost (GFlush (co_dest co) (co_data co)) w)) by (eapply same_G; [apply n_ghost|exact Hg]).
+  change (collectors w) with (collectors (ghost (GFlush (co_dest co) (co_data co)) w)) in E |- *.
+  revert Hg' E. generalize (ghost (GFlush (co_dest co) (co_data co)) w). clear w Hg. intros w Hg E.
   eapply GP_weaken; [exact Hg|reflexivity|reflexivity|cbn; lia|reflexivity|intros t tid H; exact H| | |apply (g_done _ _ Hg)].
   - intros c'. unfold open_coll. cbn [collectors set_collectors]. destruct (N.eqb_spec c' c) as [->|Hne].
     + rewrite (aget_aset_same N.eqb N.eqb_eq). cbn. discriminate.
@@ -1295,10 +1302,10 @@ Proof.
 Qed.
 
 Lemma G_empty now0 c ins dr : fresh_insts ins ->
-  G (mkWorld now0 [] [] [] 1 c sess_init false None [] [] [] [] None false [] ins [] [] [] dr []).
+  G (mkWorld now0 [] [] [] 1 c sess_init false None [] [] [] [] None false [] ins [] [] [] dr [] []).
 Proof.
   intros Hf.
-  assert (Hst : forall st a, inner a (get_store st (mkWorld now0 [] [] [] 1 c sess_init false None [] [] [] [] None false [] ins [] [] [] dr [])) = []).
+  assert (Hst : forall st a, inner a (get_store st (mkWorld now0 [] [] [] 1 c sess_init false None [] [] [] [] None false [] ins [] [] [] dr [] [])) = []).
   { intros [|i] a; cbn; [reflexivity|]. unfold get_store. cbn [insts]. destruct (aget N.eqb i ins) as [x|] eqn:E; [|reflexivity].
     apply aget_in_N in E. rewrite (Hf _ _ E). reflexivity. }
   constructor.
